@@ -380,7 +380,7 @@ def gen_cases(rng, tier):
                 out += mk_cases(Tab([(b"k", ("i", 0)), (b"in", inner)]), "exhaustive-nested")[1:]
                 out += mk_cases(Tab([(b"el", [inner, inner]), (b"k", ("i", 0))]), "exhaustive-nested")[1:]
     # random trees
-    n_rand = 2500 if quick else 60000
+    n_rand = 2500 if quick else 100000
     for _ in range(n_rand):
         out += mk_cases(rand_table(rng, rng.randrange(1, 5)), "random")
     # parse-print-parse-print of valid documents
